@@ -785,7 +785,7 @@ def has_triv_conj(o):
 class C15(Check):
     pid = "C15"
     quick_cases = 700
-    thorough_cases = 12000
+    thorough_cases = 8000
     rule = ("flat item lists (type definitions, addenda, lexical rules with affix patterns, letter-sets, wild-cards, "
             "includes, line/block comments, nested :type/:instance environments) whose bodies are term trees to depth 3 "
             "(quick) / 4 (thorough): conjunctions (also one-term Conjunction objects), AVMs with dotted paths of 1-4 "
